@@ -252,6 +252,9 @@ def exec_fil(sc, ctx, sim, mk) -> None:
         if raised is not None:
             if grew != 0:
                 raise mk("refused-but-file-grew", f"cwrite raised {raised!r} after the file grew by {grew} bytes", extra)
+            if exp is not None and np.dtype(op["dtype"]) == fdt and np.dtype(op["dtype"]).isnative and lay == "1d":
+                # only an array whose dtype DIFFERS from the file's sample type (or that is not a plain contiguous 1-D array) may be refused
+                raise mk("refused-an-array-of-the-file's-own-sample-type", f"cwrite of {op['n']} representable {op['dtype']} samples at {d} bit raised {raised!r}", extra)
             ctx.probe("refused")
             continue
         if grew != want:
